@@ -496,6 +496,7 @@ LONG_UNITS = [
 
 
 class LongInputs(SubCheck):
+    crosstalk_k = (8, 16)      # expensive cases: the alphabet of after:X is kept small, and fixed
     name = "long"
     chunk = 1
     single_outcome_ok = True
